@@ -38,7 +38,7 @@ pub fn run(run: &mut Run) {
 
 fn case<S: Shape>(r: &mut Rng, acc: &mut Acc, index: u64, verbose: bool) {
     let kinds = &S::KINDS[..S::N_ANIM];
-    let opts = GenOpts { random_pos: false, neg_delay: true, ..GenOpts::default() };
+    let opts = GenOpts { random_pos: false, neg_delay: true, shuffle: true, ..GenOpts::default() };
     let mut spec = gen_tl(r, kinds, &opts);
     // positions k/64
     for k in spec.kfs.iter_mut() {
